@@ -6,11 +6,14 @@ package main
 import (
 	"bufio"
 	"context"
+	"encoding/json"
 	"fmt"
 	"io"
 	"net/http"
 	"net/http/httptest"
 	"net/url"
+	"os"
+	"os/exec"
 	"sort"
 	"strings"
 	"sync"
@@ -290,7 +293,218 @@ var hostSets = [][]string{
 
 // ---------------------------------------------------------------------------------------
 
+// ---------------------------------------------------------------------------------------
+// shared builders (also used by the child process of the engine-history stream)
+
+func backendFactoryRec(be *config.Backend) proxy.Proxy {
+	hp := proxy.NewHTTPProxyWithHTTPExecutor(be, globalRec.executor(), be.Decoder)
+	return func(ctx context.Context, rq *proxy.Request) (*proxy.Response, error) {
+		recFrom(ctx).inner = &innerObs{path: rq.Path, query: cloneValues(rq.Query)}
+		return hp(ctx, rq)
+	}
+}
+
+type ginSpec struct {
+	endpoint, pattern string
+	allow, beQuery    []string
+}
+
+var ginSpecs = []ginSpec{
+	{"/a/{p}", "/b/{p}?s=1", []string{"*"}, nil},
+	{"/a/{p}", "/b/{p}", []string{"k", "z"}, nil},
+	{"/a/{p}/t/{q}", "/b/{p}/c/{q}?s=1", []string{"*"}, nil},
+	{"/a/{p}", "/b/x-{p}.json?x=a%20b", nil, nil},
+	{"/a/{p}", "/b/{p}?s=1", []string{"*"}, []string{"k"}},
+	{"/a/{p}/t/{q}", "/b/{q}/{p}", []string{"k"}, nil},
+}
+
+type ginCfg struct {
+	route   string // Coq term
+	routeJS string
+	allow   []string
+	beAllow []string
+	pattern string
+	inited  string
+	hosts   []string
+	handler http.Handler
+	two     bool
+}
+
+// buildGin builds one gin engine through krakendgin.NewEngine + the router factory for
+// ginSpecs[i]; ginExtra is the value of the gin namespace in the service extra_config (nil:
+// no extra config at all = default options).
+func buildGin(i int, ginExtra map[string]interface{}) *ginCfg {
+	g := ginSpecs[i]
+	hosts := hostSets[i%len(hostSets)]
+	sc := &config.ServiceConfig{Version: config.ConfigVersion, Timeout: 5 * time.Second, Host: hosts}
+	if ginExtra != nil {
+		sc.ExtraConfig = config.ExtraConfig{krakendgin.Namespace: ginExtra}
+	}
+	ep := &config.EndpointConfig{Endpoint: g.endpoint, Method: "GET", QueryString: g.allow,
+		Backend: []*config.Backend{{URLPattern: g.pattern, Host: hosts, QueryStringsToPass: g.beQuery}}}
+	sc.Endpoints = []*config.EndpointConfig{ep}
+	if err := sc.Init(); err != nil {
+		panic(err)
+	}
+	engine := krakendgin.NewEngine(*sc, krakendgin.EngineOptions{Logger: logging.NoOp, Writer: io.Discard})
+	df := proxy.NewDefaultFactory(backendFactoryRec, logging.NoOp)
+	pf := proxy.FactoryFunc(func(e *config.EndpointConfig) (proxy.Proxy, error) {
+		p, err := df.New(e)
+		if err != nil {
+			return nil, err
+		}
+		return func(ctx context.Context, rq *proxy.Request) (*proxy.Response, error) {
+			ps := map[string]string{}
+			for k, v := range rq.Params {
+				ps[k] = v
+			}
+			recFrom(ctx).outer = &outerObs{params: ps, query: cloneValues(rq.Query)}
+			return p(ctx, rq)
+		}, nil
+	})
+	var handler http.Handler
+	krakendgin.NewFactory(krakendgin.Config{Engine: engine, Middlewares: []gin.HandlerFunc{}, HandlerFactory: krakendgin.EndpointHandler,
+		ProxyFactory: pf, Logger: logging.NoOp,
+		RunServer: func(_ context.Context, _ config.ServiceConfig, h http.Handler) error { handler = h; return nil }}).New().Run(*sc)
+	if handler == nil {
+		panic("gin handler not captured")
+	}
+	two := strings.Contains(g.endpoint, "{q}")
+	route := `[Lit "a"; Par "p"]`
+	if two {
+		route = `[Lit "a"; Par "p"; Lit "t"; Par "q"]`
+	}
+	return &ginCfg{route, ep.Endpoint, ep.QueryString, ep.Backend[0].QueryStringsToPass, g.pattern, ep.Backend[0].URLPattern, hosts, handler, two}
+}
+
+type ginRes struct {
+	malformed bool
+	status    int
+	panicText string
+	rc        *recorder
+}
+
+func ginRun(g *ginCfg, target string) ginRes {
+	rc := &recorder{}
+	raw := "GET " + target + " HTTP/1.1\r\nHost: gw.example\r\n\r\n"
+	req, err := http.ReadRequest(bufio.NewReader(strings.NewReader(raw)))
+	res := ginRes{malformed: err != nil, rc: rc}
+	if !res.malformed {
+		req = req.WithContext(withRec(req.Context(), rc))
+		rr := httptest.NewRecorder()
+		func() {
+			defer func() {
+				if x := recover(); x != nil {
+					res.panicText = fmt.Sprint("panic: ", x)
+				}
+			}()
+			g.handler.ServeHTTP(rr, req)
+		}()
+		res.status = rr.Code
+	}
+	return res
+}
+
+func ginTarget(g *ginCfg, a, b string) string {
+	if g.two {
+		return "/a/" + a + "/t/" + b
+	}
+	return "/a/" + a
+}
+
+// ---- engine-history stream: runs in a CHILD process, so that process-wide state of the gin
+// adapter written by an engine with other options cannot leak into the other streams.
+// History: an engine with disable_path_decoding, the default-options engines A (spec 0) and
+// A2 (spec 2), again an engine with disable_path_decoding, then a default engine C; the
+// requests go to A, A2 and C only (the property speaks of default options).
+type histObs struct {
+	Engine    string     `json:"engine"`
+	Spec      int        `json:"spec"`
+	Target    string     `json:"target"`
+	Malformed bool       `json:"malformed"`
+	Status    int        `json:"status"`
+	Panic     string     `json:"panic"`
+	Outer     *histOuter `json:"outer"`
+	Inner     *histInner `json:"inner"`
+	Call      *histCall  `json:"call"`
+}
+type histOuter struct {
+	Params map[string]string   `json:"params"`
+	Query  map[string][]string `json:"query"`
+}
+type histInner struct {
+	Path  []byte              `json:"path"`
+	Query map[string][]string `json:"query"`
+}
+type histCall struct {
+	Host, Path, RawQuery, Frag, Wire, Full []byte
+}
+
+const childEnv = "VERIF_C10_CHILD"
+
+var historyTargets = [][2]string{{"7%3Fadmin=true", "w"}, {"7%23top", "w"}, {"%2541", "w"}, {"w", "x%3Fy"}, {"x%20y", "w"}, {"plain", "w"}, {"x%25", "w"}}
+
+func childHistory() {
+	gin.SetMode(gin.ReleaseMode)
+	off := map[string]interface{}{"disable_path_decoding": true}
+	buildGin(0, off)
+	a := buildGin(0, nil)
+	a2 := buildGin(2, nil)
+	buildGin(1, off)
+	c := buildGin(0, nil)
+	enc := json.NewEncoder(os.Stdout)
+	for _, e := range []struct {
+		name string
+		spec int
+		g    *ginCfg
+	}{{"A", 0, a}, {"A2", 2, a2}, {"C", 0, c}} {
+		for _, t := range historyTargets {
+			target := ginTarget(e.g, t[0], t[1])
+			res := ginRun(e.g, target)
+			o := histObs{Engine: e.name, Spec: e.spec, Target: target, Malformed: res.malformed, Status: res.status, Panic: res.panicText}
+			if res.rc.outer != nil {
+				o.Outer = &histOuter{res.rc.outer.params, res.rc.outer.query}
+			}
+			if res.rc.inner != nil {
+				o.Inner = &histInner{[]byte(res.rc.inner.path), res.rc.inner.query}
+			}
+			if cl := res.rc.call(); cl != nil {
+				o.Call = &histCall{[]byte(cl.host), []byte(cl.path), []byte(cl.rawquery), []byte(cl.frag), []byte(cl.wire), []byte(cl.full)}
+			}
+			if err := enc.Encode(o); err != nil {
+				panic(err)
+			}
+		}
+	}
+}
+
+func runHistoryChild() []histObs {
+	ctx, cancel := context.WithTimeout(context.Background(), 60*time.Second)
+	defer cancel()
+	cmd := exec.CommandContext(ctx, os.Args[0])
+	cmd.Env = append(os.Environ(), childEnv+"=engine-history")
+	cmd.Stderr = os.Stderr
+	outb, err := cmd.Output()
+	if err != nil {
+		panic(fmt.Sprintf("engine-history child process: %v", err))
+	}
+	var res []histObs
+	d := json.NewDecoder(strings.NewReader(string(outb)))
+	for d.More() {
+		var o histObs
+		if err := d.Decode(&o); err != nil {
+			panic(fmt.Sprintf("engine-history child output: %v", err))
+		}
+		res = append(res, o)
+	}
+	return res
+}
+
 func main() {
+	if os.Getenv(childEnv) == "engine-history" {
+		childHistory()
+		return
+	}
 	cfg := out.ParseFlags("C10")
 	gin.SetMode(gin.ReleaseMode)
 	r := rng.New(cfg.Seed)
@@ -535,13 +749,6 @@ func main() {
 		}
 		return sc, ep
 	}
-	backendFactory := func(be *config.Backend) proxy.Proxy {
-		hp := proxy.NewHTTPProxyWithHTTPExecutor(be, rec.executor(), be.Decoder)
-		return func(ctx context.Context, rq *proxy.Request) (*proxy.Response, error) {
-			recFrom(ctx).inner = &innerObs{path: rq.Path, query: cloneValues(rq.Query)}
-			return hp(ctx, rq)
-		}
-	}
 	patterns := []struct{ endpoint, pattern string }{
 		{"/a/{p}", "/b/{p}"},
 		{"/a/{p}", "/b/{p}?s=1"},
@@ -557,7 +764,7 @@ func main() {
 	for i, pt := range patterns {
 		hosts := hostSets[i%len(hostSets)]
 		_, ep := buildStack(pt.endpoint, pt.pattern, hosts, nil)
-		p, err := proxy.NewDefaultFactory(backendFactory, logging.NoOp).New(ep)
+		p, err := proxy.NewDefaultFactory(backendFactoryRec, logging.NoOp).New(ep)
 		if err != nil {
 			panic(err)
 		}
@@ -636,92 +843,9 @@ func main() {
 	}
 
 	// ================= (iii) gin engine, default options =================
-	type ginCfg struct {
-		route   string // Coq term
-		routeJS string
-		allow   []string
-		beAllow []string
-		pattern string
-		inited  string
-		hosts   []string
-		handler http.Handler
-		two     bool
-	}
 	var gins []*ginCfg
-	for i, g := range []struct {
-		endpoint, pattern string
-		allow, beQuery    []string
-	}{
-		{"/a/{p}", "/b/{p}?s=1", []string{"*"}, nil},
-		{"/a/{p}", "/b/{p}", []string{"k", "z"}, nil},
-		{"/a/{p}/t/{q}", "/b/{p}/c/{q}?s=1", []string{"*"}, nil},
-		{"/a/{p}", "/b/x-{p}.json?x=a%20b", nil, nil},
-		{"/a/{p}", "/b/{p}?s=1", []string{"*"}, []string{"k"}},
-		{"/a/{p}/t/{q}", "/b/{q}/{p}", []string{"k"}, nil},
-	} {
-		hosts := hostSets[i%len(hostSets)]
-		sc := &config.ServiceConfig{Version: config.ConfigVersion, Timeout: 5 * time.Second, Host: hosts}
-		ep := &config.EndpointConfig{Endpoint: g.endpoint, Method: "GET", QueryString: g.allow,
-			Backend: []*config.Backend{{URLPattern: g.pattern, Host: hosts, QueryStringsToPass: g.beQuery}}}
-		sc.Endpoints = []*config.EndpointConfig{ep}
-		if err := sc.Init(); err != nil {
-			panic(err)
-		}
-		engine := krakendgin.NewEngine(*sc, krakendgin.EngineOptions{Logger: logging.NoOp, Writer: io.Discard})
-		df := proxy.NewDefaultFactory(backendFactory, logging.NoOp)
-		pf := proxy.FactoryFunc(func(e *config.EndpointConfig) (proxy.Proxy, error) {
-			p, err := df.New(e)
-			if err != nil {
-				return nil, err
-			}
-			return func(ctx context.Context, rq *proxy.Request) (*proxy.Response, error) {
-				ps := map[string]string{}
-				for k, v := range rq.Params {
-					ps[k] = v
-				}
-				recFrom(ctx).outer = &outerObs{params: ps, query: cloneValues(rq.Query)}
-				return p(ctx, rq)
-			}, nil
-		})
-		var handler http.Handler
-		krakendgin.NewFactory(krakendgin.Config{Engine: engine, Middlewares: []gin.HandlerFunc{}, HandlerFactory: krakendgin.EndpointHandler,
-			ProxyFactory: pf, Logger: logging.NoOp,
-			RunServer: func(_ context.Context, _ config.ServiceConfig, h http.Handler) error { handler = h; return nil }}).New().Run(*sc)
-		if handler == nil {
-			panic("gin handler not captured")
-		}
-		two := strings.Contains(g.endpoint, "{q}")
-		route := `[Lit "a"; Par "p"]`
-		if two {
-			route = `[Lit "a"; Par "p"; Lit "t"; Par "q"]`
-		}
-		gins = append(gins, &ginCfg{route, ep.Endpoint, ep.QueryString, ep.Backend[0].QueryStringsToPass, g.pattern, ep.Backend[0].URLPattern, hosts, handler, two})
-	}
-	type ginRes struct {
-		malformed bool
-		status    int
-		panicText string
-		rc        *recorder
-	}
-	ginRun := func(g *ginCfg, target string) ginRes {
-		rc := &recorder{}
-		raw := "GET " + target + " HTTP/1.1\r\nHost: gw.example\r\n\r\n"
-		req, err := http.ReadRequest(bufio.NewReader(strings.NewReader(raw)))
-		res := ginRes{malformed: err != nil, rc: rc}
-		if !res.malformed {
-			req = req.WithContext(withRec(req.Context(), rc))
-			rr := httptest.NewRecorder()
-			func() {
-				defer func() {
-					if x := recover(); x != nil {
-						res.panicText = fmt.Sprint("panic: ", x)
-					}
-				}()
-				g.handler.ServeHTTP(rr, req)
-			}()
-			res.status = rr.Code
-		}
-		return res
+	for i := range ginSpecs {
+		gins = append(gins, buildGin(i, nil))
 	}
 	ginObsCoq := func(res ginRes) string {
 		outer := "None"
@@ -758,12 +882,7 @@ func main() {
 	ginCase := func(g *ginCfg, target string, kind string) {
 		ginEmit(g, target, ginRun(g, target), kind)
 	}
-	tgt := func(g *ginCfg, a, b string) string {
-		if g.two {
-			return "/a/" + a + "/t/" + b
-		}
-		return "/a/" + a
-	}
+	tgt := ginTarget
 	for gi, g := range gins {
 		for _, s := range []string{"x", "x%3Fy%3D1", "x%23frag", "x%2541", "x%20y", "%", "%zz", "x%2Fy", "..", ".", "x%00", "x%0Ay", "é", "%C3%A9",
 			"x#f", "x;y", "x+y", "x&admin=true", "%7B%7B.Q%7D%7D", "{{.Q}}", "x%", "%25", "%2525", "%253F", "%2523", "x%3f", "x%3F", "*", "x\"y", "x%22y", "x%5By%5D"} {
@@ -858,6 +977,23 @@ func main() {
 			tgt(g, "x%2541", "w1") + "?k=1", tgt(g, "four", "x%23y"), tgt(g, "four", "w4"), tgt(g, "one", "w1")} {
 			ginCase(g, t, "reuse-seq")
 		}
+	}
+
+	// engine history (child process): default-options engines must keep answering 400 whatever
+	// other engines were built in the process before or after them
+	for _, o := range runHistoryChild() {
+		rc := &recorder{}
+		if o.Outer != nil {
+			rc.outer = &outerObs{params: o.Outer.Params, query: o.Outer.Query}
+		}
+		if o.Inner != nil {
+			rc.inner = &innerObs{path: string(o.Inner.Path), query: o.Inner.Query}
+		}
+		if o.Call != nil {
+			rc.calls = []*callObs{{host: string(o.Call.Host), path: string(o.Call.Path), rawquery: string(o.Call.RawQuery),
+				frag: string(o.Call.Frag), wire: string(o.Call.Wire), full: string(o.Call.Full)}}
+		}
+		ginEmit(gins[o.Spec], o.Target, ginRes{malformed: o.Malformed, status: o.Status, panicText: o.Panic, rc: rc}, "engine-history:"+o.Engine)
 	}
 
 	// concurrent reuse: the same instance hit from several goroutines released together, many
